@@ -10,6 +10,7 @@ pub mod c10;
 pub mod c11;
 pub mod c12;
 pub mod c13;
+pub mod c14;
 pub mod c16;
 pub mod c17;
 pub mod c18;
@@ -33,6 +34,7 @@ pub fn run(ctx: &mut Ctx, id: &str) -> bool {
         "C11" => c11::run(ctx),
         "C12" => c12::run(ctx),
         "C13" => c13::run(ctx),
+        "C14" => c14::run(ctx),
         "C16" => c16::run(ctx),
         "C17" => c17::run(ctx),
         "C18" => c18::run(ctx),
@@ -57,6 +59,7 @@ pub fn replay(ctx: &Ctx, id: &str, label: &str, case: Value) -> Result<(), Strin
         "C11" => c11::replay(ctx, label, case),
         "C12" => c12::replay(ctx, label, case),
         "C13" => c13::replay(ctx, label, case),
+        "C14" => c14::replay(ctx, label, case),
         "C16" => c16::replay(ctx, label, case),
         "C17" => c17::replay(ctx, label, case),
         "C18" => c18::replay(ctx, label, case),
